@@ -326,7 +326,11 @@ pub fn oracle(case: &Case) -> Outcome {
 fn projected_def(v9: bool) -> BoxedStrategy<Def> {
     // (ie, len) per member; address members choose the v4 or the v6 variant
     let members = (
-        proptest::sample::subsequence(vec![0usize, 1, 2, 3, 4, 5, 6, 7, 8], 0..=9),
+        // any subset of the nine projected members; one template in four carries all of them
+        prop_oneof![
+            3 => proptest::sample::subsequence(vec![0usize, 1, 2, 3, 4, 5, 6, 7, 8], 0..=9),
+            1 => Just(vec![0usize, 1, 2, 3, 4, 5, 6, 7, 8]),
+        ],
         any::<bool>(),
         any::<bool>(),
         proptest::collection::vec((any::<u8>(), any::<u8>(), any::<u8>(), any::<u8>()), 0..=4),
